@@ -71,7 +71,7 @@ CLAIMED = {
    technique=T, ref="4/C19"),
  "C20": dict(
    text="Proof: with ed25519.GenerateKey's contract (error => nil keys; success => 32/64-byte keys with pub = pubOf(priv)), newBiscuit and Append are proved to return no token on error, never to reach Seed()/slicing with a nil key (panic obligations), and to store the seed whose public key they announce and sign.",
-   note="Assumed: GenerateKey fails iff the reader fails or runs dry before 32 bytes (Go 1.23 behaviour; the 'every k < 32' quantifier lives inside that contract). New/Build/WithRNG plumbing of the reader is not yet under contract.",
+   note="Assumed: GenerateKey fails exactly when the reader it is given does not deliver 32 bytes (ghost predicate entropyOK(reader); Go 1.23 behaviour; the 'every k < 32' quantifier lives inside that assumed contract). With it, Append, newBiscuit (through WithRNG) and New are proved to report the failure of the reader the caller supplied - i.e. they are proved to use that reader. Not decided: the same through the token Builder, which wraps the reader in an option value (an equality between the wrapper's and the wrapped reader's entropy is not expressible without modelling io.Reader).",
    technique=T, ref="4/C20"),
 }
 
